@@ -172,7 +172,13 @@ class InversionImagingMapping(AbstractInversionImaging):
                 noise_map=self.noise_map,
                 settings=self.settings,
                 add_to_curvature_diag=True,
-                no_regularization_index_list=self.no_regularization_index_list,
+                # The indexes are those of the full curvature matrix, the matrix computed here is the block of one
+                # mapper, so only the indexes inside its parameter range apply (shifted to the start of the block).
+                no_regularization_index_list=[
+                    index - mapper_param_range_i[0]
+                    for index in self.no_regularization_index_list
+                    if mapper_param_range_i[0] <= index < mapper_param_range_i[1]
+                ],
             )
 
             curvature_matrix[
